@@ -281,3 +281,26 @@ def run(ck):
     ck.ob('C25.forward', 'C25.forward/single-writer-path', not direct and len(app) == 1, direct[0][0].loc(direct[0][1]) if direct else qb.loc(),
           'only handle_write sends on a client socket; queue_binary appends to the session write_buffer (a direct send from the queueing side '
           'overtakes bytes still buffered)' + ('' if not direct else ' — send in %s' % direct[0][0].name))
+
+    # ---- a bridged chunk is forwarded whole: forward_to_partner hands (data, size) unchanged to queue_binary on every path with a partner ------
+    fp_ = P.fn(R + 'forward_to_partner')
+    ck.touch(fp_)
+    qs = [i for i in fp_.walk() if fp_.nodes[i].get('callee') == R + 'queue_binary']
+    whole_ok = len(qs) == 1 and declref(fp_, fp_.call_args(qs[0])[1], fp_.params[1]['d']) is not None and declref(fp_, fp_.call_args(qs[0])[2], fp_.params[2]['d']) is not None
+    rets_fp = [i for i in fp_.walk() if fp_.nodes[i]['k'] == 'ReturnStmt']
+    from props.common import refusal_reasons as _rr25
+    odd_ret = []
+    for r_, conds in _rr25(fp_, lambda r: True):
+        for c_ in (conds or [('unconditional',)]):
+            if not ((c_[0] == 'u!' and 'partner' in repr(c_)) or (c_[0] == 'm' and c_[-1] == 'closing' and 'partner' in repr(c_))):
+                odd_ret.append((r_, c_))
+    ck.ob('C25.forward', 'C25.forward/whole-chunk-forwarded', whole_ok and not odd_ret, fp_.loc(odd_ret[0][0]) if odd_ret else fp_.loc(),
+          'forward_to_partner queues exactly the (data, size) it was given and gives up only when the partner is gone or closing: no backlog limit drops or shortens relayed bytes'
+          + ('' if not odd_ret else ' — return under %r' % (odd_ret[0][1],)))
+
+    # ---- a line is removed from the buffer before its handler runs (handlers that switch the session to identity / bridged mode read the buffer from 0)
+    er_ = [i for i in pp.walk() if (pp.nodes[i].get('callee') or '').endswith('basic_string<char>::erase') and any((pp.nodes[j].get('m') or '').endswith('ClientSession::read_buffer') for j in pp.walk(i))]
+    late25 = must_precede(pp, hl, lambda e, s_=set(er_): e in s_ or any(pp.is_in(x, e) for x in s_)) if er_ and hl else [(None, ['erase or handle_line not found'])]
+    ck.ob('C25.forward', 'C25.forward/line-consumed-before-dispatch', not late25, pp.loc(hl[0]) if hl else pp.loc(),
+          'process_protocol erases a command line from read_buffer before handle_line runs: after a CONNECT the buffer starts with the identity bytes, not with the command text',
+          late25[0][1] if late25 else None)
